@@ -20,6 +20,7 @@ RULE = (
     "parentheses x all truth assignments; all conditional skeletons <= 3 arms x else/no else x one level of "
     "nesting) plus grammar-directed random programs with boundary inputs. distinct_nontrivial = distinct "
     "(program, selected return ordinal or UNROUTABLE) pairs of programs that contain a conditional."
+    " Added later: operator matrix with NaN / inf / nearest-double neighbours, not- and not-not-wrapped comparisons, a bare string right of `in`, a literal left of a tuple of fields; Decimal / Fraction inputs; co-resident evaluators (earlier programs' evaluators asked again after each later compile); copy after recompile."
 )
 ASSUMPTIONS = [
     "reference router (pyabv/ref) is the oracle; every disagreement is triaged by hand before it is believed",
